@@ -38,7 +38,7 @@ CHECKS = {
    design="5/C11", technique="Coq proof (object-index invariant of the writer + abbreviation injectivity + seek theorem; overlay algebra for stacks) + extracted-model tie",
    note="as C01; table size < 2^59 (the footer has 59 bits for the object-section position); the stack-level theorem is over decoded tables"),
  "C14": dict(
-   text="Coq theorem C14_wellformed: for EVERY accepted configuration and record set (any block size, padding, restart interval, hash, object index on/off, any number of blocks and index levels) the bytes the writer model emits are accepted by the independent spec decoder (written from the format description: header copy, CRC-32, positions, zero padding, restart tables, key order within and across blocks, every index level vs its children, object index vs ref blocks, update-index range) and decode to exactly the records written. Tied on every run: Go writer bytes = model writer bytes; additionally every file the implementation emits (C01 tables, tables written by Add and by compaction in C07/C13 histories) is judged by the extracted spec decoder and its decoded records are compared with the source records",
+   text="Coq theorem C14_wellformed: for EVERY accepted configuration and record set (any block size, padding, restart interval, hash, object index on/off, any number of blocks and index levels) the bytes the writer model emits are accepted by the independent spec decoder (written from the format description: header copy, CRC-32, positions, zero padding, restart tables, key order within and across blocks, every index level vs its children, object index vs ref blocks, update-index range) and decode to exactly the records written; C14_padded: with padding on, every block in front of the log section starts on a block boundary (a separate judgement, spec_aligned, because the file does not record whether it is padded). Tied on every run: Go writer bytes = model writer bytes; additionally every file the implementation emits (C01 tables, tables written by Add and by compaction in C07/C13 histories) is judged by the extracted spec decoder and its decoded records are compared with the source records",
    design="5/C14", technique="Coq proof (writer model refines the format spec: spec_decode accepts and inverts write_table) + byte-exact tie + run-time translation validation by the extracted judge",
    note="tables < 2^59 bytes when an object index is written (the footer field holds offset*32+idlen in 64 bits), < 2^64 otherwise; zlib enters by its round-trip hypothesis; the judge shares the field-level decoders (varint, key, record value) with the reader model, nothing of the block / table readers"),
  "C18": dict(
